@@ -1,6 +1,6 @@
 (** C05 -- exit status is reported truthfully and decides return vs. raise.
     Statements only; proofs in Proofs/C05_exit.v.  Model: Model/ExitModel.v. *)
-From InvokeVerif Require Import Model.ExitModel Spec.C05Spec Proofs.C05_exit.
+From InvokeVerif Require Import Model.ExitModel Spec.C05Spec Corr.C05Corr Proofs.C05_exit.
 From Coq Require Import ZArith.
 Local Open Scope Z_scope.
 
@@ -28,12 +28,27 @@ Theorem C05_ok_iff_zero :
     rv_return_code (result_of e) = e /\ rv_exited (result_of e) = e.
 Proof. exact ok_iff_zero. Qed.
 
-(** (c) Flagship: for every situation the decision tail of Runner._finish
-    satisfies the executable specification. *)
+(** (c) Flagship: for every situation -- through Runner.run / Context.run /
+    Promise.join / Promise.__exit__, or through Context.sudo -- what the model
+    does satisfies the executable specification. *)
+Theorem C05_run_outcome_meets_spec :
+  forall s, spec_finish s (run_outcome s) = true.
+Proof. exact run_outcome_meets_spec. Qed.
+
 Theorem C05_finish_meets_spec :
-  forall s, spec_finish s (finish (s_thread_excs s) (s_watcher_errs s) (s_timeout_set s)
-                                  (s_timed_out s) (Some (s_status s)) (s_warn s)) = true.
+  forall s, s_sudo s = false ->
+    spec_finish s (finish (s_thread_excs s) (s_watcher_errs s) (s_timeout_set s)
+                          (s_timed_out s) (Some (s_status s)) (s_warn s)) = true.
 Proof. exact finish_meets_spec. Qed.
+
+(** sudo changes nothing but a Failure caused by its rejected password
+    (-> AuthFailure, same result): timeouts, user watcher errors and unexpected
+    exits keep their own types. *)
+Theorem C05_sudo_keeps_failure_types :
+  forall bp o,
+    sudo_wrap bp o = o \/
+    (bp = true /\ exists r, o = Raise RFailure r /\ sudo_wrap bp o = Raise RAuthFailure r).
+Proof. exact sudo_keeps_failure_types. Qed.
 
 (** Returns normally iff nothing went wrong in the threads, no timeout expired,
     and the status is zero or warn was requested; the result carries the status. *)
@@ -57,6 +72,7 @@ Theorem C05_raise_order :
     | Raise RUnexpectedExit r =>
         te = 0%nat /\ we = 0%nat /\ (ts && to = false)%bool /\ rc <> Some 0 /\ w = false /\
         r = Some (result_of rc)
+    | Raise RAuthFailure _ => False
     | Return r => True
     | OtherOutcome => False
     end.
@@ -74,7 +90,7 @@ Theorem C05_real_child_meets_spec :
   forall e core warn,
     match e with Exited c => 0 <= c <= 255 | Killed s => 1 <= s <= 126 end ->
     let raw := match e with Exited c => exit_status c | Killed s => sig_status s core end in
-    spec_finish (mkSit 0 0 false false (true_status e) warn)
+    spec_finish (mkSit 0 0 false false (true_status e) warn false false)
                 (finish 0 0 false false (pty_returncode raw) warn) = true.
 Proof. exact real_child_meets_spec. Qed.
 
